@@ -36,7 +36,8 @@ RULE = ("a case is one history (deepcopy / add or remove a class, symbol or equa
 TRUSTED = ["the regenerated source of a tree's description is what a user would have written to obtain the edited tree "
            "(edits are parsed from the same clause text that is added to the description)",
            "canonical flat model = Node.to_json of the flatten result without the parser's running symbol counters (id, order)"]
-ASSUMPTIONS = ["edits use the documented API (add_class, remove_class, add_symbol, remove_symbol, add_equation, "
+ASSUMPTIONS = ["an outcome RecursionError on one side only is not compared (the depth at which CPython's recursion limit is hit depends on the caller's stack); counted as recursion-limit-not-compared",
+               "edits use the documented API (add_class, remove_class, add_symbol, remove_symbol, add_equation, "
                "remove_equation) with freshly parsed objects; an object is never added to two places",
                "the lookup cache that _find_class keeps for unqualified imports is not part of the observed state"]
 
@@ -329,7 +330,10 @@ def check_history(ctx, case, drv):
             exp = fresh[key]
             got = flatten_outcome(trees[i]["tree"], path, via)
             ctx.count("op-flatten-%s-%s" % (via, "ok" if exp[0] == "ok" else "fails-fresh"))
-            if got != exp and exp != ("exc", "does-not-parse"):
+            if ("exc", "RecursionError") in (got, exp) and got != exp:
+                # the interpreter's recursion limit is hit at a depth that depends on the caller's stack: not an outcome
+                ctx.count("recursion-limit-not-compared")
+            elif got != exp and exp != ("exc", "does-not-parse"):
                 ctx.violation("flattening a class of a tree after copies and edits differs from flattening it on a fresh parse of "
                               "that tree's own source (%s; tree %s of %d)" % (c05.describe(exp, got), "original" if i == 0 else "copy", len(trees)),
                               dict(small, upto=n + 1), c05._short(exp), c05._short(got), "history")
